@@ -165,7 +165,7 @@ enum Front {
     Real(std::net::SocketAddr),
 }
 
-trait Io: tokio::io::AsyncRead + tokio::io::AsyncWrite + Unpin + Send {}
+pub trait Io: tokio::io::AsyncRead + tokio::io::AsyncWrite + Unpin + Send {}
 impl<T: tokio::io::AsyncRead + tokio::io::AsyncWrite + Unpin + Send> Io for T {}
 
 async fn open(front: &Front, http2: bool, sni: Option<String>) -> Option<(Box<dyn Io>, Option<tokio::task::JoinHandle<()>>)> {
